@@ -152,6 +152,10 @@ func (d *Driver) Enabled(e *mc.Env, s *mc.State) []mc.Op {
 				add(fmt.Sprintf("buy(C,%s->%s,a%d)", r[0], r[1], i), opData{kind: "swap", who: "C", rcpt: "C", in: r[0], out: r[1], amt: a, buy: true, bound: "loose"})
 			}
 		}
+		// an order from a denomination to itself: refused today; were it executed, both legs would run through
+		// one pool, and each leg has to obey the rule on the reserves it actually meets (see sameDenomLegs)
+		add("sell(C,btc->btc,a0)", opData{kind: "swap", who: "C", rcpt: "C", in: "btc", out: "btc", amt: d.V.Amts[0], bound: "loose"})
+		add("buy(C,btc->btc,a0)", opData{kind: "swap", who: "C", rcpt: "C", in: "btc", out: "btc", amt: d.V.Amts[0], buy: true, bound: "loose"})
 		for i, a := range d.V.Amts {
 			add(fmt.Sprintf("addliq(B,btc,a%d)", i), opData{kind: "addliq", who: "B", pool: "btc", amt: a, bound: "loose"})
 		}
@@ -492,9 +496,80 @@ func (d *Driver) apply(e *mc.Env, s *mc.State, op mc.Op) []mc.Finding {
 		if p0.L.Sign() == 0 && p1.L.Sign() > 0 && (p1.S.Sign() == 0 || p1.T.Sign() == 0) {
 			fs = append(fs, mc.F("C01/shares-minted-against-nothing/"+mt, "%s on pool %s: L=%s with S=%s T=%s", op.Name, cp, p1.L, p1.S, p1.T))
 		}
-		if od.kind == "swap" {
+		if od.kind == "swap" && od.in == od.out {
+			if cp == od.in {
+				fs = append(fs, sameDenomLegs(e, s, op.Name, mt, cp, p0, out.Events, params.Fee, od.buy)...)
+			}
+		} else if od.kind == "swap" {
 			fs = append(fs, swapLegCheck(op.Name, mt, cp, p0, p1, params.Fee, od.buy)...)
 		}
+	}
+	return fs
+}
+
+// sameDenomLegs judges an executed order whose two legs ran through one pool: the net change of the reserves
+// says nothing about the single legs, so they are read from the bank transfer events of the message — a leg is
+// a transfer into the pool's escrow account followed by one out of it — and each is checked against the
+// reserves as they stood when it ran.
+func sameDenomLegs(e *mc.Env, s *mc.State, opName, mt, cp string, p0 poolObs, evs sdk.Events, fee sdkmath.LegacyDec, buy bool) []mc.Finding {
+	_, esc, ok := lptOf(e, s, cp)
+	if !ok {
+		return nil
+	}
+	cur := poolObs{S: new(big.Int).Set(p0.S), T: new(big.Int).Set(p0.T), L: p0.L}
+	move := func(p poolObs, c sdk.Coin, sign int64) poolObs {
+		q := poolObs{S: new(big.Int).Set(p.S), T: new(big.Int).Set(p.T), L: p.L}
+		d := new(big.Int).Mul(c.Amount.BigInt(), big.NewInt(sign))
+		switch c.Denom {
+		case std:
+			q.S.Add(q.S, d)
+		case cp:
+			q.T.Add(q.T, d)
+		}
+		return q
+	}
+	var fs []mc.Finding
+	var legStart *poolObs
+	legs := 0
+	for _, ev := range evs {
+		if ev.Type != "transfer" {
+			continue
+		}
+		var from, to, amt string
+		for _, a := range ev.Attributes {
+			switch a.Key {
+			case "sender":
+				from = a.Value
+			case "recipient":
+				to = a.Value
+			case "amount":
+				amt = a.Value
+			}
+		}
+		coins, err := sdk.ParseCoinsNormalized(amt)
+		if err != nil {
+			continue
+		}
+		for _, c := range coins {
+			switch esc.String() {
+			case to:
+				if legStart == nil {
+					st := cur
+					legStart = &st
+				}
+				cur = move(cur, c, 1)
+			case from:
+				cur = move(cur, c, -1)
+				if legStart != nil {
+					legs++
+					fs = append(fs, swapLegCheck(fmt.Sprintf("%s leg %d", opName, legs), mt, cp, *legStart, cur, fee, buy)...)
+					legStart = nil
+				}
+			}
+		}
+	}
+	if legs == 0 {
+		fs = append(fs, mc.F("C01/swap-leg-shape/"+mt, "%s on pool %s succeeded but its transfer events show no leg through the pool", opName, cp))
 	}
 	return fs
 }
